@@ -71,11 +71,23 @@ for ty, tye in [(None, "Unit"), ("and", "And"), ("or", "Or"), ("unit", "Unit")]:
 add("list", "list(list_type: bogus; list_style: bogus)", ("Unit", "Wide"))
 add("list", "list( list_style :narrow ;list_type: or )", ("Or", "Narrow"))
 
+# ---- keys declared only in the default locale: every other locale defaults to it, and the value must still be
+# formatted for the locale being rendered
+N_DECLARED_EVERYWHERE = len(keys)
+add("num", "number(grouping_strategy: always)", ("Always",))
+add("cur", "currency(width: narrow; currency_code: EUR)", ("Narrow", "EUR"))
+add("date", "date(date_length: long)", ("Long",))
+add("time", "time(time_length: medium)", ("Medium",))
+add("dt", "datetime(date_length: short; time_length: short)", ("Short", "Short"))
+add("list", "list(list_type: and; list_style: wide)", ("And", "Wide"))
+
 FORMS = ["zero", "one", "two", "few", "many", "other"]
 
 def locale_file(loc):
     d = {}
-    for name, text, kind, exp in keys:
+    for i, (name, text, kind, exp) in enumerate(keys):
+        if i >= N_DECLARED_EVERYWHERE and loc != "en":
+            continue  # defaulted to en
         d[name] = f"{loc}|{{{{ v, {text} }}}}"
     for f in FORMS:
         d[f"pl_card_{f}"] = f"{loc}|{f}|{{{{ count }}}}"
@@ -104,11 +116,11 @@ out.append("use crate::fixture::{Cw, Gs, Len, Ls, Lt, Spec, Val};")
 out.append("use crate::i18n::*;")
 out.append("use leptos_i18n::formatting::*;")
 out.append("")
-out.append("pub struct KeySpec { pub name: &'static str, pub text: &'static str, pub spec: Spec }")
+out.append("pub struct KeySpec { pub name: &'static str, pub text: &'static str, pub spec: Spec, pub only_in_default: bool }")
 out.append("")
 out.append("pub const KEYS: &[KeySpec] = &[")
-for name, text, kind, exp in keys:
-    out.append(f"    KeySpec {{ name: {json.dumps(name)}, text: {json.dumps(text)}, spec: {spec(kind, exp)} }},")
+for i, (name, text, kind, exp) in enumerate(keys):
+    out.append(f"    KeySpec {{ name: {json.dumps(name)}, text: {json.dumps(text)}, spec: {spec(kind, exp)}, only_in_default: {'true' if i >= N_DECLARED_EVERYWHERE else 'false'} }},")
 out.append("];")
 out.append("")
 out.append("/// route 1: `td_string!` on a fixture key (parser -> macro -> format_*_to_formatter)")
